@@ -34,7 +34,7 @@ example (h : Net) (m : Nat) (x : Bool) :
 def simpliciality (j : Json) : Json :=
   match (getField? j "net").bind netOfJson?, getNat? j "min_size", getBool? j "exclude_min_size" with
   | some h, some m, some x =>
-    if !(wfB h && orderable h.nodes && noEmptyEdge h) then unmodelled else
+    if !(wfB h && orderable h.nodes) then unmodelled else
     -- `edit_simpliciality` / `face_edit_simpliciality` are by definition `1 - distance`; the distance is computed once
     let sedN := simplicialEditDistance h m x true
     let mfedN := meanFaceEditDistance h m x true
